@@ -17,7 +17,7 @@ from vmon.libutil import monitored
 
 LEVEL = "exploration"
 SHARDS = {"quick": 16, "thorough": 16}
-MUST = ["accessor.order0", "accessor.order1", "accessor.order2", "create.contract_evaluations", "accessor.checks", "reframe.checks", "reject.checks", "word1.values", "word2.values"]
+MUST = ["accessor.cursor_moved_first", "accessor.order0", "accessor.order1", "accessor.order2", "create.contract_evaluations", "accessor.checks", "reframe.checks", "reject.checks", "word1.values", "word2.values"]
 RULE = ("create_ccsds_packet is called on enumerated field values; a postcondition compares the bytes with the "
         "model's bit-string layout (3+1+1+11+2+14+16 bits, length field = len(data)-1) and the harness compares "
         "every accessor, re-frames the packet through ccsds_generator (bytes and BytesIO) and checks rejection of "
@@ -92,6 +92,16 @@ def check_packet(ctx, vals, data, reframe=True):
     order = ctx.counters["accessor.checks"] % 3
     ctx.count(f"accessor.order{order}")
     names = [n for n, _ in FIELDS] + ["data_length"]
+    if ctx.counters["accessor.checks"] % 2 == 0:
+        # the header accessors describe the first six bytes whatever the read cursor is: move it first
+        how = ctx.counters["accessor.checks"] % 8
+        if how in (0, 4):
+            p.read_as_int(min(13, 8 * len(p)))
+        elif how == 2:
+            p.read_as_bytes(8 * min(len(p), 7))
+        else:
+            p.pos = 8 * len(p)
+        ctx.count("accessor.cursor_moved_first")
     if order == 1:
         hv = p.header_values
         if tuple(hv) != want:
